@@ -30,6 +30,37 @@ func verifGetBodyMaker(b []byte) func() (io.ReadCloser, error) {
 	return func() (io.ReadCloser, error) { return &vBody{append([]byte{}, b...)}, nil }
 }
 
+// vPadBody: a response body whose data is preceded by pad blanks (JSON permits them): a body of any size
+// without materialising it (the engine's reader model counts the blanks, the native run produces them)
+type vPadBody struct {
+	data []byte
+	err  error
+	pad  int
+}
+
+func (b *vPadBody) Read(p []byte) (int, error) {
+	if b.pad > 0 {
+		n := len(p)
+		if n > b.pad {
+			n = b.pad
+		}
+		for i := 0; i < n; i++ {
+			p[i] = ' '
+		}
+		b.pad -= n
+		return n, nil
+	}
+	if len(b.data) == 0 {
+		return 0, io.EOF
+	}
+	n := copy(p, b.data)
+	b.data = b.data[n:]
+	return n, nil
+}
+func (b *vPadBody) Close() error { return nil }
+
+var v9Pad = -1 // >= 0: every answer is healthy and preceded by that many blanks
+
 var v9N int
 var v9Signal bool // the transport produced a failure signal
 var v9Calls int
@@ -45,6 +76,14 @@ func verifDo(req *http.Request) (*http.Response, error) {
 		verifAssert(false, "the HTTP body is a JSON array of requests")
 	}
 	n := len(ins)
+	if v9Pad >= 0 {
+		elems := make([]interface{}, n)
+		for i := range elems {
+			elems[i] = map[string]interface{}{"data": map[string]interface{}{"tag": ins[i].Query}}
+		}
+		b, _ := json.Marshal(elems)
+		return &http.Response{StatusCode: 200, Body: &vPadBody{data: b, pad: v9Pad}}, nil
+	}
 	if verifChoice("transport", 2) == 1 {
 		v9Signal = true
 		return nil, errors.New("connection refused")
@@ -209,4 +248,24 @@ var v9Upload func(req *http.Request) (*http.Response, error)
 func verifDoUpload(req *http.Request) (*http.Response, error) {
 	verifAssert(verifRequestMultipart(req) != nil, "a request with a file is sent as multipart/form-data")
 	return v9Upload(req)
+}
+
+
+// VerifAnswerOfAnySize: a healthy, well-formed answer is accepted whatever its size (the size is a
+// symbolic number of blanks in front of the JSON text, up to 2^30)
+func VerifAnswerOfAnySize() {
+	v9Pad = verifInt("pad", 0, 1<<30)
+	n := 1 + verifChoice("n", 2)
+	q := &MultiOpQueryer{url: "u", client: &http.Client{Transport: vNativeTransport{verifDo}}, maxBatchSize: 10}
+	inputs := make([]*requests.Request, n)
+	for i := range inputs {
+		inputs[i] = &requests.Request{Query: v9Tags[i]}
+	}
+	res, err := q.Query(inputs)
+	verifAssert(err == nil, "a healthy, well-formed answer is accepted whatever its size")
+	verifAssert(len(res) == n, "one result per request")
+	for i := 0; i < n && i < len(res); i++ {
+		verifAssert(res[i] != nil && res[i]["tag"] == v9Tags[i], "every accepted result is present and answers its own request")
+	}
+	verifReach("answer of symbolic size accepted")
 }
